@@ -22,7 +22,7 @@ import (
 
 // C20 — Log formatting is faithful and stays within its buffer.
 
-const c20Rule = "field values: all 65536 uint16 (decimal and hex), all 256 uint8, every byte value in every MAC position and in ByteArray, every IPv6 zero/non-zero group layout x 5 group-value shapes (as net.IP and netip.Addr) plus IPv4, 4-in-6, nil; boundary and random uint32/int; rapid-drawn lines of 1..12 mixed fields whose reference text is < 2000 bytes (ToString and Write); over-long ByteArray/StringArray/IPArray after prefixes of drawn length; String() of every valid view and of table entries. reference = stdlib renderers (netip, net, strconv, fmt, time). non-trivial = IP with >= 1 zero group, line with >= 2 fields, or a truncated array; distinct by hash of the field list"
+const c20Rule = "field values: all 65536 uint16 (decimal and hex), all 256 uint8, every byte value in every MAC position and in ByteArray, every IPv6 zero/non-zero group layout x 5 group-value shapes (as net.IP and netip.Addr) plus IPv4, 4-in-6, nil; boundary and random uint32/int; rapid-drawn lines of 1..12 mixed fields whose reference text is < 2000 bytes (ToString and Write); over-long ByteArray/StringArray/IPArray after prefixes of drawn length (cut only when the complete line would not fit; the next line rendered from the pooled buffer must be complete); String() of every valid view and of table entries. reference = stdlib renderers (netip, net, strconv, fmt, time). non-trivial = IP with >= 1 zero group, line with >= 2 fields, or a truncated array; distinct by hash of the field list"
 
 type c20Field struct {
 	Kind  string   `json:"kind"`
